@@ -101,6 +101,9 @@ type runOut struct {
 	Items   []*api.OutputChannelItem
 	Residue []string
 	Timeout bool
+	// byte accounting (C20): capture sizes of all request / response messages (items and
+	// matcher residue), what is left unread in each half's progress counter, bytes fed
+	CapReq, CapResp, LeftC, LeftS, FedC, FedS int
 }
 
 func runHalves(cbytes, sbytes []byte, cs *Case, cends, sends []int) *runOut {
@@ -218,10 +221,30 @@ func runHalves(cbytes, sbytes []byte, cs *Case, cends, sends []int) *runOut {
 		out.S.Outcome = "hang"
 	}
 	out.Items = col.Items
+	for _, it := range col.Items {
+		out.CapReq += it.Pair.Request.CaptureSize
+		out.CapResp += it.Pair.Response.CaptureSize
+	}
 	matcher.GetMap().Range(func(k, v interface{}) bool {
 		out.Residue = append(out.Residue, k.(string))
+		if gm, ok := v.(*api.GenericMessage); ok {
+			if gm.IsRequest {
+				out.CapReq += gm.CaptureSize
+			} else {
+				out.CapResp += gm.CaptureSize
+			}
+		}
 		return true
 	})
+	fedOf := func(r *hreader) int {
+		n := 0
+		for _, c := range r.Reader.Chunks {
+			n += len(c)
+		}
+		return n
+	}
+	_ = fedOf
+	out.LeftC, out.LeftS = rc.Reader.Progress.Current(), rs.Reader.Progress.Current()
 	sort.Strings(out.Residue)
 	return out
 }
